@@ -64,6 +64,9 @@ CLAIMED['C17'] = ("the pieces returned by the real SplitStatementToPieces (which
 CLAIMED['C16'] = ("every sequence of k<=4 statement commands (well-formed execute with symbolic values / NULLs with and without the types block, truncated execute, send_long_data on either statement, reset, commands on an unknown id) on a session with two prepared statements, with a nondeterministic backend answer: each executed text is built from exactly this execution's values and the long data sent since the last execution, no bound value survives an execution (successful, failed or malformed), statements do not see each other's values, unknown ids fail",
     "handleQuery is a recorder (mockey natively); string parameters of one symbolic letter (escaping is C15's subject); prepare/close commands themselves and more than two statements are outside the bound")
 
+CLAIMED['C15'] = ("for 'select ?' with one string/blob parameter of 0..3 arbitrary symbolic bytes (inline in four string types, or as long data) the text produced by the real bindStmtArgs + GetRewriteSQL + escapeSQL is the template with exactly one literal that a MySQL literal scanner decodes to the bound bytes, under the default sql_mode and under NO_BACKSLASH_ESCAPES; integer parameters of every width/sign at boundary values and NULL render as the bound number",
+    "integers are boundary values enumerated concretely (formatting of symbolic integers is not modelled by the engine), dates/times/floats/decimals are not covered; one placeholder; the packet decoding of handleStmtExecute is C16/C38's subject; known findings C15-no-backslash-escapes")
+
 NA_REASON = "check not built yet (work in progress; see DESIGN.md section 3 for the planned harness)"
 NA = {}
 
